@@ -4,23 +4,37 @@
    over EVERY repository state: no premise relates the state to a history, so the statements cover
    every state reachable by any history of backup/forget/prune followed by any damage. *)
 From Verif.Base Require Import Tactics.
-From Verif.C05 Require Import Extracted Model Proofs Proofs2 Examples.
+From Coq Require Import Relations.
+From Verif.C05 Require Import Extracted Model Proofs Proofs2 Proofs3 Examples.
 Local Open Scope N_scope.
 
 (* Soundness.  If the full check (read_data) reports no error then for every snapshot root:
    every tree below it is found in the index, decrypts, decodes with the recorded length and
    parses; every file has a content list; every chunk is found, decrypts, decodes, and hashes to
    the chunk id; every tree, the snapshot's root tree included, hashes to the id it is referenced
-   by ([correct ... true]: strict about roots).  [sel] is the answer of the index restore builds for itself; it may choose freely among equal
-   keys, which is harmless when no key occurs twice ([nodup_keys], evaluated on every e2e case). *)
+   by ([correct ... true]: strict about roots).  [sel] is the answer of the index restore builds
+   for itself: it may choose ANY copy of a key that is stored in several packs — read_data reads
+   every pack holding a copy of a blob of a collected pack, so every copy is verified; that two
+   authentic copies of a tree are the same tree is collision-freedom of the hash. *)
 Theorem check_clean_implies_restorable :
+  forall (B : Type) (hash : B -> id) (blen : B -> N) (parse : B -> option tree)
+         (st : state B) (fuel : nat) (sel : selector),
+    (forall b b', hash b = hash b' -> b = b') ->
+    check B hash blen parse st fuel = Some [] ->
+    sel_valid B st sel ->
+    forall r, In r (st_roots st) -> correct B hash blen parse st sel true fuel r = Some true.
+Proof. exact check_clean_implies_restorable_sel. Qed.
+Print Assumptions check_clean_implies_restorable.
+
+(* Without duplicate keys the statement needs no hypothesis on the hash at all. *)
+Theorem check_clean_implies_restorable_nodup :
   forall (B : Type) (hash : B -> id) (blen : B -> N) (parse : B -> option tree)
          (st : state B) (fuel : nat) (sel : selector),
     check B hash blen parse st fuel = Some [] ->
     nodup_keys B st = true -> sel_valid B st sel ->
     forall r, In r (st_roots st) -> correct B hash blen parse st sel true fuel r = Some true.
-Proof. exact check_clean_implies_restorable_sel. Qed.
-Print Assumptions check_clean_implies_restorable.
+Proof. exact check_clean_implies_restorable_nodup. Qed.
+Print Assumptions check_clean_implies_restorable_nodup.
 
 (* The same without the premise on duplicates when restore's index answers as check's did. *)
 Theorem check_clean_implies_restorable_same_index :
@@ -37,12 +51,13 @@ Print Assumptions check_clean_implies_restorable_same_index.
 Theorem damage_that_matters_is_reported :
   forall (B : Type) (hash : B -> id) (blen : B -> N) (parse : B -> option tree)
          (st : state B) (fuel : nat) (sel : selector) (r : id),
-    nodup_keys B st = true -> sel_valid B st sel -> In r (st_roots st) ->
+    (forall b b', hash b = hash b' -> b = b') ->
+    sel_valid B st sel -> In r (st_roots st) ->
     correct B hash blen parse st sel true fuel r = Some false ->
     check B hash blen parse st fuel <> Some [].
 Proof.
-  intros B hash blen parse st fuel sel r Hn Hv Hr Hc Hk.
-  rewrite (check_clean_implies_restorable_sel B hash blen parse st fuel sel Hk Hn Hv r Hr) in Hc.
+  intros B hash blen parse st fuel sel r Hinj Hv Hr Hc Hk.
+  rewrite (check_clean_implies_restorable_sel B hash blen parse st fuel sel Hinj Hk Hv r Hr) in Hc.
   discriminate.
 Qed.
 Print Assumptions damage_that_matters_is_reported.
@@ -110,18 +125,147 @@ Theorem root_tree_replacement_is_reported :
 Proof. exact root_replaced_is_reported. Qed.
 Print Assumptions root_tree_replacement_is_reported.
 
-(* FULL-STRENGTH statement without the premise nodup_keys (refuted): it cannot be dropped.  A blob stored
-   in two packs: check's index answers with one copy and only that pack is read; restore's own
-   index may answer with the other copy, which nothing has verified. *)
-Theorem duplicate_keys_refuted :
-  exists (st : state N) (sel : selector),
-    check N xhash xblen xparse st 5 = Some [] /\ sel_valid N st sel /\
-    exists r, In r (st_roots st) /\ readable N xblen xparse st sel 5 r = Some false.
+(* Duplicate keys.  Before the fix `check: read every pack holding a copy of a used blob` the
+   statement needed the premise nodup_keys and had the witness `duplicate_keys_refuted` (a blob
+   stored in two packs: check's index answers with one copy and only that pack was read; restore's
+   own index may answer with the other copy).  Now every copy is read: *)
+Theorem all_copies_verified :
+  forall (B : Type) (hash : B -> id) (blen : B -> N) (parse : B -> option tree) (st : state B) fuel,
+    check B hash blen parse st fuel = Some [] ->
+    exists used, check_trees B blen parse st fuel = Some ([], used) /\
+      forall pid, In pid used ->
+        forall t b, In (t, pid, b) (entries B st) ->
+          forall p' b', In (t, p', b') (entries B st) -> ib_id b' = ib_id b ->
+            exists d, read_blob B blen st p' b' = Some d /\ hash d = ib_id b'.
+Proof. exact all_copies_verified_lemma. Qed.
+Print Assumptions all_copies_verified.
+
+(* ... and the former witness state is reported: the pack with the damaged copy (103) is not among
+   the packs the walk collects, but it is read. *)
+Theorem duplicate_copy_is_reported :
+  check N xhash xblen xparse st_dup 5 = Some [EBlobDecrypt] /\ nodup_keys N st_dup = false /\
+  sel_valid N st_dup sel_last /\ readable N xblen xparse st_dup sel_last 5 1 = Some false /\
+  check_trees N xblen xparse st_dup 5 = Some ([], [100; 101; 102; 102; 102]) /\
+  map ip_id (read_list N st_dup [100; 101; 102; 102; 102]) = [100; 101; 102; 103].
 Proof.
-  exists st_dup, sel_last. destruct duplicate_witness as [H1 [_ [H3 H4]]].
-  split; [exact H1|]. split; [exact H3|]. exists 1. split; [left; reflexivity|exact H4].
+  destruct duplicate_witness as [H1 [H2 [H3 H4]]]. destruct duplicate_copy_pack_is_read as [H5 H6].
+  repeat split; assumption.
 Qed.
-Print Assumptions duplicate_keys_refuted.
+Print Assumptions duplicate_copy_is_reported.
+
+(* ---- the fuel of the modelled walk ----
+   The real walker keeps a `visited` set; the model unfolds the tree graph with fuel.  More fuel
+   never changes a result, so "the" verdict is well defined: *)
+Theorem check_verdict_fuel_independent :
+  forall (B : Type) (hash : B -> id) (blen : B -> N) (parse : B -> option tree) (st : state B) f f' a b,
+    (check B hash blen parse st f = Some a -> (f <= f')%nat -> check B hash blen parse st f' = Some a) /\
+    (check B hash blen parse st f = Some a -> check B hash blen parse st f' = Some b -> a = b).
+Proof.
+  intros. split; [intros H Hle; unfold check in *; eapply check_fuel_le; eauto|apply check_verdict_unique].
+Qed.
+Print Assumptions check_verdict_fuel_independent.
+
+(* A tree id is the hash of a serialisation that contains the ids of its subtrees, so these existed
+   before ([no_hash_cycles]: some rank decreases from hash(b) to every subtree id b lists).  When
+   every tree blob the index lists hashes to its id, the graph the walk follows has no cycle ... *)
+Theorem tree_graph_acyclic :
+  forall (B : Type) (hash : B -> id) (blen : B -> N) (parse : B -> option tree) (st : state B) rank,
+    no_hash_cycles B hash parse rank -> trees_authentic B hash blen st ->
+    forall i, ~ clos_trans id (fun a b => edge B blen parse st a b) i i.
+Proof. intros B hash blen parse st rank Hh Ha. eapply ranked_acyclic, authentic_ranked; eauto. Qed.
+Print Assumptions tree_graph_acyclic.
+
+(* ... and the fuelled walk ends once the fuel exceeds the rank of the roots: the model's check
+   then has a verdict, which by the previous theorem is the verdict for every larger fuel. *)
+Theorem walk_fuel_sufficient :
+  forall (B : Type) (hash : B -> id) (blen : B -> N) (parse : B -> option tree) (st : state B) rank,
+    no_hash_cycles B hash parse rank -> trees_authentic B hash blen st ->
+    (forall f i, (rank i < f)%nat -> walk B blen parse st f i <> None) /\
+    check B hash blen parse st (S (max_rank rank (st_roots st))) <> None.
+Proof.
+  intros B hash blen parse st rank Hh Ha.
+  pose proof (authentic_ranked B hash blen parse st rank Hh Ha) as Hr. split.
+  - apply walk_fuel_sufficient_rank. exact Hr.
+  - unfold check. apply (check_terminates_rank B hash blen parse st rank _ Hr).
+    intros r Hin. pose proof (max_rank_ge rank _ r Hin). lia.
+Qed.
+Print Assumptions walk_fuel_sufficient.
+
+(* Hence soundness without a fuel caveat: with f0 = 1 + the largest root rank, check f0 has a
+   verdict, every other fuel that ends gives the same verdict, and a clean verdict implies that
+   every snapshot restores completely and correctly through any index answer. *)
+Theorem check_clean_implies_restorable_total :
+  forall (B : Type) (hash : B -> id) (blen : B -> N) (parse : B -> option tree)
+         (st : state B) (sel : selector) rank,
+    (forall b b', hash b = hash b' -> b = b') ->
+    no_hash_cycles B hash parse rank -> trees_authentic B hash blen st -> sel_valid B st sel ->
+    let f0 := S (max_rank rank (st_roots st)) in
+    check B hash blen parse st f0 <> None /\
+    (forall f es, check B hash blen parse st f = Some es -> check B hash blen parse st f0 = Some es) /\
+    (check B hash blen parse st f0 = Some [] ->
+     forall r, In r (st_roots st) -> correct B hash blen parse st sel true f0 r = Some true).
+Proof.
+  intros B hash blen parse st sel rank Hinj Hh Ha Hv f0.
+  destruct (walk_fuel_sufficient B hash blen parse st rank Hh Ha) as [_ Hne]. fold f0 in Hne.
+  split; [exact Hne|]. split.
+  - intros f es Hf. destruct (check B hash blen parse st f0) as [a|] eqn:E; [|contradiction].
+    f_equal. symmetry. eapply check_verdict_unique; eauto.
+  - intro Hc. apply check_clean_implies_restorable_sel; assumption.
+Qed.
+Print Assumptions check_clean_implies_restorable_total.
+
+(* ---- read-data-subset (ReadSubsetOption::apply_with_rng; the shuffle is any permutation) ---- *)
+Theorem subset_all_reads_everything :
+  forall (B : Type) (hash : B -> id) (blen : B -> N) (parse : B -> option tree) (st : state B) sh fuel,
+    check_subset B hash blen parse st SAll sh fuel = check B hash blen parse st fuel.
+Proof. exact subset_all_is_full. Qed.
+Print Assumptions subset_all_reads_everything.
+
+(* Percentage(100) and Size(s) with s at least the total select every pack (since the fix `a pack
+   that exactly fits the remaining size is read`; before it the last pack of the shuffle was
+   dropped: retain_strict_drops_exact_fit), hence give the verdict of the full check. *)
+Theorem subset_full_budget_reads_everything :
+  forall (B : Type) (hash : B -> id) (blen : B -> N) (parse : B -> option tree) (st : state B) sh fuel,
+    (forall l, Permutation (sh l) l) ->
+    (forall l, apply_subset (SPercentage 100) sh l = sh l) /\
+    (forall l sz, packs_total l <= sz -> apply_subset (SSize sz) sh l = sh l) /\
+    (check_subset B hash blen parse st (SPercentage 100) sh fuel = Some [] <->
+     check B hash blen parse st fuel = Some []).
+Proof.
+  intros B hash blen parse st sh fuel Hp. split; [|split].
+  - intro l. apply percentage_100_selects_all, Hp.
+  - intros l sz H. apply size_covering_selects_all; [apply Hp|exact H].
+  - unfold check_subset. apply subset_perm_same_verdict. intro l.
+    rewrite (percentage_100_selects_all sh l (Hp l)). apply Hp.
+Qed.
+Print Assumptions subset_full_budget_reads_everything.
+
+Theorem strict_budget_dropped_the_exact_fit :
+  forall p, 0 < rsize p -> retain_budget false (packs_total [p]) [p] = [].
+Proof. exact retain_strict_drops_exact_fit. Qed.
+Print Assumptions strict_budget_dropped_the_exact_fit.
+
+(* What a PARTIAL read means: every finding it reports is a finding of the full check (errors are
+   real) and a clean full check makes every partial read clean; but a clean partial read says
+   nothing about restorability (witness: the damaged pack is simply not selected). *)
+Theorem subset_errors_are_real :
+  forall (B : Type) (hash : B -> id) (blen : B -> N) (parse : B -> option tree) (st : state B) o sh fuel es,
+    (forall l, Permutation (sh l) l) ->
+    check_subset B hash blen parse st o sh fuel = Some es ->
+    exists es', check B hash blen parse st fuel = Some es' /\ incl es es'.
+Proof.
+  intros B hash blen parse st o sh fuel es Hp. unfold check_subset. apply subset_errors_real.
+  intro l. apply apply_subset_incl, Hp.
+Qed.
+Print Assumptions subset_errors_are_real.
+
+Theorem partial_subset_clean_is_not_restorability :
+  check_subset N xhash xblen xparse st_blob_damaged (SIdSubSet 1 3) (fun l => l) 5 = Some [] /\
+  check N xhash xblen xparse st_blob_damaged 5 = Some [EBlobDecrypt] /\
+  readable N xblen xparse st_blob_damaged (lookup N st_blob_damaged) 5 1 = Some false.
+Proof. exact partial_subset_clean_not_restorable. Qed.
+Print Assumptions partial_subset_clean_is_not_restorability.
+
 
 (* A clean check implies that every snapshot and index file is readable, hence that restore can
    build its index at all (GlobalIndex::new aborts on an unreadable index file, whether or not that
@@ -163,7 +307,8 @@ Theorem source_facts_as_modelled :
   x_blob_loop_running_offset = true /\ x_unzip_unwrap = true /\ x_offsets_checked_on_sorted = true /\
   x_check_index_includes_marked = false /\ x_restore_index_includes_marked = false /\
   x_unreadable_index_aborts_check = true /\ x_unreadable_index_aborts_restore = true /\
-  x_subset_reduces_n = true /\
+  x_subset_reduces_n = true /\ x_reads_all_copies = true /\ x_subset_shape = true /\
+  x_subset_fits_exactly = true /\
   x_length_len = 4 /\ x_comp_overhead = 32 /\ x_entry_len = 37 /\ x_entry_len_compressed = 41.
 Proof. repeat split; reflexivity. Qed.
 Print Assumptions source_facts_as_modelled.
